@@ -227,6 +227,23 @@ def one_case(ctx, alg, iso, cfg, name, op):
         ctx.violation('result depends on operand layout', cid, blades=[alg.bin2canon[k] for k in bad[:6]],
                       canonical_result=show_elem({k: g1.get(k, 0) for k in bad[:4]}),
                       variant_result=show_elem({k: g2.get(k, 0) for k in bad[:4]}), **wit)
+    # a well-formed result names every blade once; and what is done next with the result must not depend on the layout either
+    for label, r_ in (('canonical', r1), ('variant', r2)):
+        if hasattr(r_, 'keys') and ops.has_dupes(tuple(r_.keys())):
+            ctx.violation('result depends on operand layout', cid + ['duplicate-keys', label], blades=[alg.bin2canon.get(k, k) for k in r_.keys()],
+                          canonical_result=f'keys {list(r1.keys())}', variant_result=f'keys {list(r2.keys())}',
+                          where=f'the result for the {label} layout stores a blade twice', **wit)
+            bad = True
+    if not bad and hasattr(r1, 'keys') and hasattr(r2, 'keys') and (op in SERIES or rng.random() < 0.1) and len(r1.keys()) <= 8:
+        stf, f12 = ctx.guarded(to, lambda: (r1 * r1 + ~r1, r2 * r2 + ~r2))
+        if stf == 'ok':
+            ctx.count('follow_up_operations_compared')
+            badf = elem_diff(mv_dict(f12[0]), mv_dict(f12[1]))
+            if badf:
+                ctx.violation('result depends on operand layout', cid + ['follow-up'], blades=[alg.bin2canon[k] for k in badf[:6]],
+                              canonical_result=show_elem({k: mv_dict(f12[0]).get(k, 0) for k in badf[:4]}),
+                              variant_result=show_elem({k: mv_dict(f12[1]).get(k, 0) for k in badf[:4]}),
+                              where='r*r + ~r computed from the two results r', **wit)
     # the two layouts of the second operand side by side in one list / tuple operand: each element of the result sequence is the
     # result for that element (which denotes the same multivector both times)
     if op in ops.BINARY and not bad and rng.random() < 0.25:
